@@ -77,10 +77,10 @@ theorem castBinSeq_eq_present (t : Target) (b : Bytes) :
   unfold castBinSeq
   rcases claimList (b.map (u8Claim t)) with e | (_ | ds) <;> rfl
 
-theorem castVariantStr_eq_present : ∀ (vs : TVariants) (s : Bytes), demandOf (castVariantStr vs s) = variantNamed vs s
+theorem castVariantStr_eq_present : ∀ (vs : TVariants) (s : Bytes), demandOf (castVariantStr vs s) = unitVariantNamed vs s
   | .nil, _ => rfl
   | .cons n k rest, s => by
-    simp only [castVariantStr, variantNamed]
+    simp only [castVariantStr, unitVariantNamed]
     split
     · cases k <;> rfl
     · exact castVariantStr_eq_present rest s
